@@ -188,6 +188,14 @@ Definition fclique_ops (wn : f32) (pins : list (Z * f32)) : list fpinop :=
   let '(w, ok) := fclique_w wn (length pins) in
   fpair_ops (fun pi pj => mkFOp (fst pi) (fst pj) (snd pi) (snd pj) w ok) pins.
 
+(* MatrixCreator::singleCellNet(net) (repair of finding F25) and the condition `nb <= 2 || singleCellNet(net)` *)
+Definition fsingle_cell (pins : list (Z * f32)) : bool :=
+  match pins with
+  | [] => true
+  | p :: r => forallb (fun q : Z * f32 => fst q =? fst p) r
+  end.
+Definition fbip_like (pins : list (Z * f32)) : bool := (length pins <=? 2)%nat || fsingle_cell pins.
+
 (* addStar(net), net_model.cpp:470-481 *)
 Definition fstar_ops (wn : f32) (pins : list (Z * f32)) (c : Z) : list fpinop :=
   let d := fnat (length pins) in
@@ -292,7 +300,7 @@ Definition fb2b_ops (wn : f32) (pins : list (Z * f32)) (pl : list f32) (eps : f3
 
 (* addStar(net), net_model.cpp:470-481 *)
 Definition fadd_star (n : fnet) (s : fsys) : fsys :=
-  if (length (fn_pins n) <=? 2)%nat then fapply_ops (fbipoint_ops (fn_weight n) (fn_pins n)) s        (* :472 *)
+  if fbip_like (fn_pins n) then fapply_ops (fbipoint_ops (fn_weight n) (fn_pins n)) s                 (* :472 *)
   else let (c, s1) := fadd_cell fzero s in fapply_ops (fstar_ops (fn_weight n) (fn_pins n) c) s1.
 Definition fadd_bipoint (n : fnet) (s : fsys) : fsys := fapply_ops (fbipoint_ops (fn_weight n) (fn_pins n)) s.
 Definition fadd_clique (n : fnet) (s : fsys) : fsys := fapply_ops (fclique_ops (fn_weight n) (fn_pins n)) s.
@@ -304,11 +312,11 @@ Definition fadd_net_model (m : model) (pl : list f32) (eps : f32) (s : fsys) (n 
   | B2B => fapply_ops (fb2b_ops wn pins pl eps) s
   | Clique => fapply_ops (fclique_pl_ops wn pins pl eps) s
   | Star =>
-    if (length pins <=? 2)%nat then fapply_ops (fbipoint_pl_ops wn pins pl eps) s          (* :509 *)
+    if fbip_like pins then fapply_ops (fbipoint_pl_ops wn pins pl eps) s                   (* :509 *)
     else let (c, s1) := fadd_cell (fstar_pos pins pl) s in                                 (* :515 *)
          fapply_ops (fstar_pl_ops wn pins pl eps c) s1
   | LightStar =>
-    if (length pins <=? 2)%nat then fapply_ops (fbipoint_pl_ops wn pins pl eps) s          (* :537 *)
+    if fbip_like pins then fapply_ops (fbipoint_pl_ops wn pins pl eps) s                   (* :537 *)
     else let (c, s1) := fadd_cell (fstar_pos pins pl) s in                                 (* :543 *)
          fapply_ops (flightstar_ops wn pins pl eps c) s1
   end.
@@ -370,3 +378,27 @@ Definition fldexp (v : f32) (k : Z) : f32 := @Bldexp 24 128 q24 q24_128 mode_NE 
 Definition fsys_ldexp (k : Z) (s s' : fsys) : Prop :=
   fs_mat s' = map (fun t => mkFT (ft_row t) (ft_col t) (fldexp (ft_val t) k)) (fs_mat s) /\
   fs_rhs s' = map (fun v => fldexp v k) (fs_rhs s) /\ fs_init s' = fs_init s /\ fs_nz s' = fs_nz s.
+
+(* ------------------------------------------------------------------ MatrixCreator::normalize() (repair of finding F22) *)
+(* std::ilogb(v) for a finite non-zero v (also subnormal): position of the leading bit *)
+Definition filogb (v : f32) : Z :=
+  match v with B754_finite _ m e _ => Zdigits radix2 (Zpos m) + e - 1 | _ => 0 end.
+(* float m = 0.0f; for (v : l) m = std::max(m, std::abs(v))   (a NaN entry is ignored: m < NaN is false) *)
+Definition fmaxabs (l : list f32) : f32 := fold_left (fun m v => fmax_std m (fabs v)) l fzero.
+(* the exponent e of the scaling by 2^-e, None when normalize() returns without scaling *)
+Definition fnorm_exp (s : fsys) : option Z :=
+  let maxRhs := fmaxabs (fs_rhs s) in
+  let maxMat := fmaxabs (map ft_val (fs_mat s)) in
+  if negb (fltb fzero maxRhs) || negb (is_finite maxRhs) || negb (is_finite maxMat) then None
+  else
+    let e := filogb maxRhs in
+    let e := if fltb fzero maxMat then Z.max e (filogb maxMat - 64) else e in
+    if e =? 0 then None else Some e.
+(* every triplet value and right-hand-side entry becomes std::ldexp(v, -e) *)
+Definition fscale_sys (e : Z) (s : fsys) : fsys :=
+  mkFSys (map (fun t => mkFT (ft_row t) (ft_col t) (fldexp (ft_val t) (- e))) (fs_mat s))
+         (map (fun v => fldexp v (- e)) (fs_rhs s)) (fs_init s) (fs_nz s) (fs_ok s).
+Definition fnormalize (s : fsys) : fsys :=
+  match fnorm_exp s with None => s | Some e => fscale_sys e s end.
+(* what MatrixCreator::solve hands to Eigen: check(); normalize(); finalize() *)
+Definition fsolver_input (s : fsys) : fsys := ffinalize (fnormalize s).
